@@ -10,6 +10,7 @@ import (
 	"os"
 	"path/filepath"
 	"sort"
+	"strconv"
 	"strings"
 	"sync/atomic"
 
@@ -106,10 +107,27 @@ func sortLogNamesOldToNew(dirEntries []os.DirEntry) []string {
 	//   $ test-app /var/log/audit/
 	//   [audit.log.4 audit.log.3 audit.log.2 audit.log.1 audit.log]
 	sort.Slice(oldestToNew, func(i, j int) bool {
+		ni, nj := logRotationNumber(oldestToNew[i]), logRotationNumber(oldestToNew[j])
+		if ni != nj {
+			return ni > nj
+		}
+
 		return oldestToNew[i] > oldestToNew[j]
 	})
 
 	return oldestToNew
+}
+
+// logRotationNumber returns N for a rotated log named "audit.log.N".
+// It returns -1 for any other name, such that the live "audit.log"
+// sorts after every rotated log.
+func logRotationNumber(name string) int {
+	n, err := strconv.Atoi(strings.TrimPrefix(name, "audit.log."))
+	if err != nil {
+		return -1
+	}
+
+	return n
 }
 
 // LogDirReader reads audit logs from a directory and tails the active
